@@ -163,6 +163,7 @@ func main() {
 	opTimeout := fs.Duration("optimeout", 60*time.Second, "per-op watchdog")
 	maxFail := fs.Int("maxfail", 20, "stop recording failures after this many")
 	maxTime := fs.Duration("maxtime", 0, "stop after this much time (0 = no limit)")
+	stopAt := fs.Int("stopat", -1, "stop after the case with this index (used once several cases have killed the process)")
 	fs.Parse(os.Args[3:])
 	p := props[os.Args[2]]
 	if p == nil {
@@ -222,7 +223,7 @@ func main() {
 		if stopped {
 			return
 		}
-		if *maxTime > 0 && time.Since(started) > *maxTime {
+		if *maxTime > 0 && time.Since(started) > *maxTime || *stopAt >= 0 && i > *stopAt {
 			stopped = true
 			return
 		}
